@@ -36,25 +36,28 @@ ID = "C12"
 TITLE = "Reported statistics and counters agree with the trajectories"
 LEAN_MODULE = "SnowProofs.Props.C12"
 _T = lambda n, c, s="full": dict(name="Snow.C12." + n, clause=c, strength=s)  # noqa: E731
+pref = ("for a vial whose stored ice fraction, once positive, stays positive (the ONLY trajectory hypothesis, on the vial's own row; MONITORED on every run; follows from C06's conditional run invariant; sigma = 0 before the first ice is proved from the model): ")
 THEOREMS = [
-    _T("tnuc_first_ice", "for admissible trajectories (sigma >= 0, ice once formed is kept - MONITORED on every run, = C06's conditional run invariant): ice first appears at the reported nucleation time: t_nuc = t[first column with sigma>0]",
+    _T("tnuc_first_ice", "for a vial whose stored ice fraction, once positive, stays positive (the ONLY trajectory hypothesis, on the vial's own row; MONITORED on every run; follows from C06's conditional run invariant; sigma = 0 before the first ice is proved from the model): ice first appears at the reported nucleation time: t_nuc = t[first column with sigma>0]",
        "full-under-monitored-hypothesis"),
+    _T("tnuc_at_least_first_ice", "no trajectory hypothesis: if a stored column shows ice the vial HAS a recorded t_nuc and it is >= "
+       "t[first column with sigma>0] (equal when the vial keeps its ice; a nucleation record never moves backwards)"),
     _T("tnuc_grid", "nucleation times lie on the grid: t_nuc = (k+1)*dt for an executed step k"),
     _T("tnuc_last_step_counterexample", "REFUTED 'times lie within the process': a vial nucleating in the last step gets "
        "t_nuc = N*dt beyond the last grid time, no column shows its ice (K3)", "counterexample"),
     _T("Tnuc_supercooled", "the nucleation temperature is below T_eq_l"),
-    _T("Tnuc_step_temperature", "for admissible trajectories (sigma >= 0, ice once formed is kept - MONITORED on every run, = C06's conditional run invariant): T_nuc = X_T[i,k0-1] + q/hl*dt with q the vial's ACTUAL net heat flow (Flake.heatFlow of the batch state stored in column k0-1 and T_shelf[k0-1]) - the temperature after the liquid update of the nucleating step",
+    _T("Tnuc_step_temperature", "for a vial whose stored ice fraction, once positive, stays positive (the ONLY trajectory hypothesis, on the vial's own row; MONITORED on every run; follows from C06's conditional run invariant; sigma = 0 before the first ice is proved from the model): T_nuc = X_T[i,k0-1] + q/hl*dt with q the vial's ACTUAL net heat flow (Flake.heatFlow of the batch state stored in column k0-1 and T_shelf[k0-1]) - the temperature after the liquid update of the nucleating step",
        "full-under-monitored-hypothesis"),
-    _T("tsol_def", "for admissible trajectories (sigma >= 0, ice once formed is kept - MONITORED on every run, = C06's conditional run invariant): t_sol = t[first column with sigma>threshold] - t_nuc; none if no column is above the threshold",
+    _T("tsol_def", "for a vial whose stored ice fraction, once positive, stays positive (the ONLY trajectory hypothesis, on the vial's own row; MONITORED on every run; follows from C06's conditional run invariant; sigma = 0 before the first ice is proved from the model): t_sol = t[first column with sigma>threshold] - t_nuc; none if no column is above the threshold",
        "full-under-monitored-hypothesis"),
-    _T("tsol_nonneg", "for admissible trajectories (sigma >= 0, ice once formed is kept - MONITORED on every run, = C06's conditional run invariant): a solidification time is non-negative",
+    _T("tsol_nonneg", "for a vial whose stored ice fraction, once positive, stays positive (the ONLY trajectory hypothesis, on the vial's own row; MONITORED on every run; follows from C06's conditional run invariant; sigma = 0 before the first ice is proved from the model): a solidification time is non-negative",
        "full-under-monitored-hypothesis"),
     _T("tsol_only_if_nucleated", "a solidification time exists only for nucleated vials"),
-    _T("fromStates_times_eq", "for admissible trajectories (sigma >= 0, ice once formed is kept - MONITORED on every run, = C06's conditional run invariant): nucleationTimes/solidificationTimes(fromStates=True) equal the recorded ones for every stored "
+    _T("fromStates_times_eq", "for a vial whose stored ice fraction, once positive, stays positive (the ONLY trajectory hypothesis, on the vial's own row; MONITORED on every run; follows from C06's conditional run invariant; sigma = 0 before the first ice is proved from the model): nucleationTimes/solidificationTimes(fromStates=True) equal the recorded ones for every stored "
        "vial whose ice is visible in a stored column (per stored vial; the scatter into the storage mask and the "
        "group selection are executable model code compared on every run, not re-proved)",
        "full-under-monitored-hypothesis"),
-    _T("fromStates_times_eq_all", "for admissible trajectories (sigma >= 0, ice once formed is kept - MONITORED on every run, = C06's conditional run invariant): full recording: the accessor model applied to the run's state matrix returns the run's "
+    _T("fromStates_times_eq_all", "for a vial whose stored ice fraction, once positive, stays positive (the ONLY trajectory hypothesis, on the vial's own row; MONITORED on every run; follows from C06's conditional run invariant; sigma = 0 before the first ice is proved from the model): full recording: the accessor model applied to the run's state matrix returns the run's "
        "t_nucleation / t_solidification arrays (whole vectors)",
        "full-under-monitored-hypothesis"),
     _T("fromStates_Tnuc_within_one_step", "for admissible trajectories (monitored): nucleationTemperatures(fromStates=True) = X_T[i,k0-1] and the recorded "
@@ -67,10 +70,20 @@ THEOREMS = [
     _T("counter_nuc_stats_beyond_end", "for admissible trajectories (sigma >= 0, ice once formed is kept - MONITORED on every run, "
        "= C06's conditional run invariant): for t[N-1] < t < N*dt the states path counts the last stored column, the stats "
        "path #{t_nuc <= t}, and the two agree", "full-under-monitored-hypothesis"),
-    _T("counter_nuc_stats", "for admissible trajectories (sigma >= 0, ice once formed is kept - MONITORED on every run, = C06's conditional run invariant): on-grid t: sigmaCounter(t,0) on the stats path = #{t_nuc <= t} = the states count",
+    _T("counter_nuc_stats", "for a vial whose stored ice fraction, once positive, stays positive (the ONLY trajectory hypothesis, on the vial's own row; MONITORED on every run; follows from C06's conditional run invariant; sigma = 0 before the first ice is proved from the model): on-grid t: sigmaCounter(t,0) on the stats path = #{t_nuc <= t} = the states count",
        "full-under-monitored-hypothesis"),
     _T("counter_sol_stats_counterexample", "REFUTED 'sigmaCounter(t) counts the vials solidified at t' on the stats path: it "
        "compares the solidification DURATION with clock time (K4)", "counterexample"),
+    _T("hyp_adm_of_row", "the trajectory hypothesis is a condition on the vial's own stored row X_sigma[i,:] (StaysIce)"),
+    _T("tnuc_within_process_weak", "K3, what does hold: 0 < t_nuc <= N*dt, and t_nuc <= t[N-1] unless t_nuc = N*dt (no trajectory hypothesis)"),
+    _T("fromStates_Tnuc_eq_minus_update", "K2, what does hold, as an EQUATION: states value = recorded value - q/hl*dt with q the "
+       "actual heat flow of the nucleating step (same hypothesis as above)", "partial"),
+    _T("counter_sol_stats_is_duration_count", "K4, what does hold (1): the stats counter at the solidification threshold is "
+       "#{t_solidification <= t} (duration vs clock)"),
+    _T("counter_sol_stats_overcounts", "K4, what does hold (2): that count is >= #{t_nucleation + t_solidification <= t}: it "
+       "over-counts, never under-counts (no trajectory hypothesis)"),
+    _T("tnuc_plus_tsol_is_crossing_time", pref + "t_nucleation + t_solidification = the grid time of the first column above the threshold",
+       "full-under-monitored-hypothesis"),
     _T("rows_are_stored_matrix", "the rows sigmaRow/tempRow the theorems speak about are the rows of the model's stored matrix "
        "Result.X (full recording): what X_T[i,k] / X_sigma[i,k] read"),
     _T("adm_of_trajAdm", "the monitored trajectory hypothesis follows from C06's run invariant TrajAdm (itself conditional on the "
@@ -82,8 +95,9 @@ LEVEL_TEXT = ("Lean 4 theorems about the executable loop model (Flake.run) and a
               "to /repo on every run by differential checks; the property's clauses are also evaluated per vial on real runs. "
               "Proved without trajectory hypothesis: "
               + "; ".join(t["clause"] for t in THEOREMS if t["strength"] == "full")
-              + ". Proved for admissible trajectories only (a MONITORED hypothesis, not in the property's quantifier; runs "
-              "outside it are counted as outside_hypothesis): "
+              + ". Proved for vials whose stored ice fraction stays positive once positive (the single MONITORED trajectory "
+              "hypothesis, a condition on the vial's own row; it cannot be dropped - C06 side_condition_needed; runs outside it "
+              "are counted as outside_hypothesis): "
               + "; ".join(t["name"].split(".")[-1] for t in THEOREMS if "monitored-hypothesis" in t["strength"])
               + ". Partial: " + "; ".join(t["clause"] for t in THEOREMS if t["strength"] == "partial")
               + ". Three clauses are refuted on the model and on the real code (K2, K3, K4, known findings).")
@@ -96,8 +110,9 @@ TRUSTED = [
     "getVialGroup is taken as a given mask (C16 is about it)",
 ]
 ASSUMPTIONS = [
-    "theorem hypotheses (structure Hyp): dt > 0, threshold >= 0, positive initial ice for a supercooled vial (constants), "
-    "and an admissible trajectory (sigma never negative; a vial with ice keeps some) - the last one is monitored on "
+    "theorem hypotheses (structure Hyp): dt > 0, threshold >= 0, positive initial ice for a supercooled vial (constants; proved "
+    "for every physically valid set), and ONE trajectory hypothesis on the vial's own stored row: its ice fraction, once "
+    "positive, stays positive (sigma = 0 before the first ice is proved from the model) - this one is monitored on "
     "every real run: the clauses of the theorems that assume it are evaluated only on trajectories that satisfy it; runs "
     "that leave it are counted under the distribution tag 'outside_hypothesis=adm…' (never a violation); generators keep "
     "dt*Hsum <= 0.85*m*c_p_min except for a small stream tagged 'unstable-stream'",
